@@ -21,7 +21,11 @@ H_ENTRY(h_cs_xor) {
   SchindelhauerTMCG *tmcg = new SchindelhauerTMCG(2, H_KPL, H_WB);
   TMCG_PublicKeyRing ring(H_KPL);
   for (unsigned k = 0; k < H_KPL; ++k) { mpz_set_ui(ring.keys[k].m, H_MOD); mpz_set_ui(ring.keys[k].y, 1UL); }
+#ifdef H_IDX
+  size_t index = H_IDX;                     // slice: the masking player is concrete, its random bits are symbolic
+#else
   size_t index = (size_t)vf_nondet_below(H_KPL);
+#endif
   TMCG_CardSecret cs(H_KPL, H_WB);
   tmcg->TMCG_CreateCardSecret(cs, ring, index);
   for (unsigned w = 0; w < H_WB; ++w) {
@@ -31,5 +35,50 @@ H_ENTRY(h_cs_xor) {
   }
   vf_assert(tmcg->TMCG_TypeOfCard(cs) == 0, "TypeOfCard of the secret's bit matrix is the neutral type 0");
   for (unsigned k = 0; k < H_KPL; ++k) for (unsigned w = 0; w < H_WB; ++w) { Z g; mpz_gcd(g, &cs.r[k][w], ring.keys[k].m); vf_assert(mpz_cmp_ui(g, 1) == 0, "masking values are units modulo the player's modulus"); }
+  H_END();
+}
+
+// ---------------------------------------------------------------- discrete-log encoding, two players
+#include "BarnettSmartVTMF_dlog.hh"
+#ifndef H_P
+#define H_P 7
+#define H_Q 3
+#define H_G 2
+#define H_K 2
+#endif
+#ifndef H_TB
+#define H_TB 1          /* type bits: 2^H_TB types must be distinct powers of g, i.e. 2^H_TB <= q */
+#endif
+static BarnettSmartVTMF_dlog *mkvtmf() {
+  BarnettSmartVTMF_dlog *v = new BarnettSmartVTMF_dlog(2, 2, false, false);
+  mpz_set_ui(v->p, H_P); mpz_set_ui(v->q, H_Q); mpz_set_ui(v->g, H_G); mpz_set_ui(v->k, H_K);
+  tmcg_mpz_fpowm_precompute(v->fpowm_table_g, v->g, v->p, mpz_sizeinbase(v->q, 2L));
+  return v;
+}
+H_ENTRY(h_vtmf_open) {
+  BarnettSmartVTMF_dlog *A = mkvtmf(), *B = mkvtmf();
+  A->KeyGenerationProtocol_GenerateKey(); B->KeyGenerationProtocol_GenerateKey();
+  std::stringstream ka, kb;
+  A->KeyGenerationProtocol_PublishKey(ka); B->KeyGenerationProtocol_PublishKey(kb);
+  vf_assume(B->KeyGenerationProtocol_UpdateKey(ka)); vf_assume(A->KeyGenerationProtocol_UpdateKey(kb));
+  A->KeyGenerationProtocol_Finalize(); B->KeyGenerationProtocol_Finalize();
+  SchindelhauerTMCG *ta = new SchindelhauerTMCG(2, 2, H_TB), *tb = new SchindelhauerTMCG(2, 2, H_TB);
+  size_t T = (size_t)vf_nondet_below(1UL << H_TB);
+  bool tap = vf_nondet_u8() & 1;
+  VTMF_Card c0, c1, c2; VTMF_CardSecret s1, s2;
+  ta->TMCG_CreateOpenCard(c0, A, T);
+  ta->TMCG_CreateCardSecret(s1, A); ta->TMCG_MaskCard(c0, c1, s1, A, tap);        // A masks
+  tb->TMCG_CreateCardSecret(s2, B); tb->TMCG_MaskCard(c1, c2, s2, B, tap);        // B masks again
+  // A opens: own share, then B's verified share
+  ta->TMCG_SelfCardSecret(c2, A);
+  size_t without = ta->TMCG_TypeOfCard(c2, A);
+  { Z e; mpz_powm(e, c2.c_1, B->x_i, A->p);
+    vf_assert(without != T || mpz_cmp_ui(e, 1) == 0, "with B's share missing the card does not open to its type (unless c_1^x_B == 1)"); }
+  ta->TMCG_SelfCardSecret(c2, A);
+  std::stringstream t, nothing, sink;
+  tb->TMCG_ProveCardSecret(c2, B, nothing, t);
+  bool ok = false; H_TRY(ok = ta->TMCG_VerifyCardSecret(c2, A, t, sink));
+  vf_assert(vfh_exc == 0 && ok, "B's decryption share is accepted");
+  vf_assert(ta->TMCG_TypeOfCard(c2, A) == T, "a card masked by both players opens to the type it was created with");
   H_END();
 }
